@@ -108,6 +108,9 @@ func goMapEnumerate(obj *object, all bool, each func(string) bool) {
 		}
 	})
 	for _, e := range entries {
+		if !goObj.value.MapIndex(e.key).IsValid() {
+			continue // deleted since the enumeration began (ES5 12.6.4)
+		}
 		if !each(e.name) {
 			return
 		}
